@@ -106,6 +106,9 @@ typedef std::complex<long double> CL;
 template <class V> struct vtraits;
 template <> struct vtraits<std::complex<double> > { enum { B = 1 }; static CL get(const std::complex<double> &v, int, int) { return CL(v.real(), v.imag()); } static const char* name() { return "complex"; } };
 template <> struct vtraits<amgcl::static_matrix<double,2,2> > { enum { B = 2 }; static CL get(const amgcl::static_matrix<double,2,2> &v, int a, int b) { return CL(v(a, b), 0); } static const char* name() { return "block2x2"; } };
+// (a degenerate hierarchy may carry NaN entries - positive off-diagonal family, singular diagonal blocks -: NaN "equals" NaN here,
+//  the clause is about R being the adjoint of P, not about P being finite)
+static bool same_or_both_nan(CL a, CL b) { auto eq = [](long double x, long double y) { return x == y || (x != x && y != y); }; return eq(a.real(), b.real()) && eq(a.imag(), b.imag()); }
 struct CDense { long n, m; std::vector<CL> a; CDense(long n = 0, long m = 0) : n(n), m(m), a((size_t)n * m, CL(0, 0)) {} CL& operator()(long i, long j) { return a[(size_t)i * m + j]; } CL operator()(long i, long j) const { return a[(size_t)i * m + j]; } };
 template <class V> static CDense vdense(const amgcl::backend::crs<V> &M, bool absolute = false) {
     const int B = vtraits<V>::B; CDense D((long)M.nrows * B, (long)M.ncols * B);
@@ -136,7 +139,7 @@ static void run_valued(const Plan &p, const gen::Csr &A0, Result &res, bool adjo
             const VM &Al = *std::static_pointer_cast<VM>(lv[l].A), &P = *std::static_pointer_cast<VM>(lv[l].P), &R = *std::static_pointer_cast<VM>(lv[l].R), &Ac = *std::static_pointer_cast<VM>(lv[l].Ac);
             if ((long)Al.nrows * B > 140) continue;
             CDense dP = vdense(P), dR = vdense(R), dA = vdense(Al), dC = vdense(Ac);
-            if (adjoint_clause) { bool ok = dR.n == dP.m && dR.m == dP.n; for (long i = 0; ok && i < dP.n; ++i) for (long j = 0; j < dP.m; ++j) if (dR(j, i) != std::conj(dP(i, j))) { ok = false; res.fail(sig("restriction-is-adjoint", when, fmt("level %zu: R(%ld,%ld) is not the adjoint of P(%ld,%ld)", l, j, i, i, j))); break; } }
+            if (adjoint_clause) { bool ok = dR.n == dP.m && dR.m == dP.n; for (long i = 0; ok && i < dP.n; ++i) for (long j = 0; j < dP.m; ++j) if (!same_or_both_nan(dR(j, i), std::conj(dP(i, j)))) { ok = false; res.fail(sig("restriction-is-adjoint", when, fmt("level %zu: R(%ld,%ld) = %.17Lg%+.17Lgi is not the adjoint of P(%ld,%ld) = %.17Lg%+.17Lgi", l, j, i, dR(j, i).real(), dR(j, i).imag(), i, j, dP(i, j).real(), dP(i, j).imag()))); break; } }
             CDense RAP = cmul(cmul(dR, dA), dP), Bd = cmul(cmul(vdense(R, true), vdense(Al, true)), vdense(P, true));
             for (long i = 0; i < dC.n; ++i) for (long j = 0; j < dC.m; ++j) { CL want = RAP(i, j) * scale; long double tol = 64 * 1.2e-16L * Bd(i, j).real() * scale + 1e-300L; if (std::abs(dC(i, j) - want) > tol) { res.fail(sig("galerkin", when, fmt("level %zu: A_c(%ld,%ld) = %.17g%+.17gi, R*A*P/%g = %.17Lg%+.17Lgi", l, i, j, (double)dC(i, j).real(), (double)dC(i, j).imag(), (double)over, want.real(), want.imag()))); i = dC.n; break; } }
             res.counts["valued_levels_checked"]++;
